@@ -34,6 +34,7 @@ type Interp struct {
 	sharedWrites []string
 	freshN     int
 	lockDepth  int
+	syncMaps   map[*Value]*MapV
 	syncWrites int
 	mapOrder   int // 0 insertion order, 1 reversed
 	errRange   Value
@@ -274,7 +275,7 @@ func (fr *frame) visitInstr(instr ssa.Instruction) (ret bool) {
 		if instr.Heap {
 			addr = new(Value)
 			fr.set(instr, addr)
-			ip.noteAllocCells(addr)
+			ip.noteFixedAlloc()
 		} else {
 			addr = fr.env[fr.lay.idx[instr]].(*Value)
 		}
@@ -282,6 +283,7 @@ func (fr *frame) visitInstr(instr ssa.Instruction) (ret bool) {
 	case *ssa.MakeSlice:
 		fr.set(instr, ip.makeSlice(instr, fr.get(instr.Len), fr.get(instr.Cap)))
 	case *ssa.MakeMap:
+		ip.noteFixedAlloc()
 		ip.nextMapID++
 		fr.set(instr, &MapV{kt: instr.Type().Underlying().(*types.Map).Key(), id: ip.nextMapID})
 	case *ssa.Range:
@@ -318,7 +320,10 @@ func (fr *frame) visitInstr(instr ssa.Instruction) (ret bool) {
 		case Array:
 			i := ip.indexCheck(fr.get(instr.Index), instr.Index.Type(), len(x))
 			fr.set(instr, copyVal(x[i]))
-		case string, *SymStr:
+		case string:
+			i := ip.indexCheck(fr.get(instr.Index), instr.Index.Type(), len(x))
+			fr.set(instr, byteConst[x[i]])
+		case *SymStr:
 			b := ip.strBytes(x)
 			i := ip.indexCheck(fr.get(instr.Index), instr.Index.Type(), len(b))
 			fr.set(instr, b[i])
@@ -340,6 +345,7 @@ func (fr *frame) visitInstr(instr ssa.Instruction) (ret bool) {
 		for _, b := range instr.Bindings {
 			bindings = append(bindings, fr.get(b))
 		}
+		ip.noteFixedAlloc()
 		fr.set(instr, &Closure{instr.Fn.(*ssa.Function), bindings})
 	case *ssa.Select:
 		fr.set(instr, ip.selectOp(fr, instr))
